@@ -85,7 +85,32 @@ class _Scenarios:
                 raise pai.PyExc("TypeError", ("expected str, bytes or os.PathLike object, not NoneType",))
             return key(args[0]).startswith("/")
 
-        stubs = {"parser.Parser.open_file": open_file, "ext:os.path.isabs": isabs, "ext:os.path.abspath": term("ABS"), "ext:os.path.join": term("JOIN"), "ext:os.path.dirname": term("DIR"), "ext:os.getcwd": lambda *a: "/cwd", "ext:os.sep": "/"}
+        import posixpath
+
+        def real(name, f):
+            # the os.path function itself (POSIX flavour, working directory /cwd) on concrete path strings:
+            # dirname("main.map") is "" and abspath() normalises, exactly as for the running library
+            def g(fr, so, args, kw):
+                if any(a is None for a in args):
+                    raise pai.PyExc("TypeError", ("expected str, bytes or os.PathLike object, not NoneType",))
+                vals = [a if isinstance(a, str) else (a.concrete() if isinstance(a, SStr) and a.is_concrete() else None) for a in args]
+                if any(v is None for v in vals):
+                    raise AnalysisError(f"os.path.{name} of a symbolic path")
+                return f(*vals)
+
+            return g
+
+        stubs = {
+            "parser.Parser.open_file": open_file,
+            "ext:os.path.isabs": real("isabs", posixpath.isabs),
+            "ext:os.path.abspath": real("abspath", lambda p_: posixpath.normpath(posixpath.join("/cwd", p_))),
+            "ext:os.path.join": real("join", posixpath.join),
+            "ext:os.path.dirname": real("dirname", posixpath.dirname),
+            "ext:os.path.normpath": real("normpath", posixpath.normpath),
+            "ext:os.path.basename": real("basename", posixpath.basename),
+            "ext:os.getcwd": lambda *a: "/cwd",
+            "ext:os.sep": "/",
+        }
         self.I = e.interp(stubs=stubs, allow_fork=False, max_depth=60)
 
     @staticmethod
@@ -106,6 +131,15 @@ class _Scenarios:
         if len(outs) != 1:
             raise AnalysisError(f"load_includes forks on the scenario: {[o.assumptions for o in outs]}")
         return outs[0], list(self.opened)
+
+
+def vpath(name: str, base: str | None) -> str:
+    """Where a relative include name must be looked for: the directory of the root file (the working
+    directory /cwd when the root has no name, or no directory part), normalised."""
+    import posixpath
+
+    d = posixpath.dirname(base) if base is not None else "/cwd"
+    return posixpath.normpath(posixpath.join("/cwd", posixpath.join(d, name)))
 
 
 def _limit_value(repo, node: ast.expr):
@@ -182,13 +216,8 @@ def run(ctx: Ctx) -> None:
             gs = guards_at(fn, c)
             dom = any((not g.positive) and isinstance(g.test, ast.Compare) and isinstance(g.test.left, ast.Name) and g.test.left.id == depth for g in gs)
             ctx.check(dom, "I1", f"{what} dominated by the depth test", loc(c), "", f"the {what} can be reached without passing the depth test")
-    # nothing but (text, fn, depth) may travel between nesting levels: a container shared across the
-    # recursion (a cache of expanded files ...) lets text expanded at one depth be reused at another,
-    # which bypasses the depth test for the nested includes of that text
-    for cs in rec_calls:
-        b = bind_args(cs.node, fn, skip_self=True)
-        extra = {k: v for k, v in b.items() if v is not None and k not in (params[1] if len(params) > 1 else "text", "fn", depth)}
-        ctx.check(not extra, "I1", "recursive call passes only text, fn and the depth counter", loc(cs.node), "", f"the recursive call also passes {sorted(extra)}: state shared between nesting levels (e.g. a cache of expanded includes) lets text expanded at a shallow depth be spliced in deeper without re-checking the depth of its own includes")
+    # (what else travels between nesting levels - a root directory, a cache - is not judged by its shape: the
+    # evaluated scenarios below decide whether depth and root-relative resolution still hold)
     # the text spliced in for an INCLUDE line is the result of the recursive call made for that line
     splice_ok = True
     splice_desc = []
@@ -206,7 +235,7 @@ def run(ctx: Ctx) -> None:
     ctx.check(splice_ok and bool(splice_desc), "I1", "replacement text is the recursive expansion of that very line", loc(fn), "", f"the result of the recursive call is used as {splice_desc}: it is not stored, as it is, under the index of the INCLUDE line it was made for")
     # evaluated depth bound: a chain of exactly LIMIT nested files expands, one more raises ValueError
     S1 = _Scenarios(e)
-    chain = lambda n: {f"ABS(JOIN(DIR(/r/main.map),f{k}.map))": (S1.text(f"F{k}a", f"INCLUDE f{k + 1}.map", f"F{k}b") if k < n else S1.text(f"F{k}")) for k in range(1, n + 1)}
+    chain = lambda n: {vpath(f"f{k}.map", "/r/main.map"): (S1.text(f"F{k}a", f"INCLUDE f{k + 1}.map", f"F{k}b") if k < n else S1.text(f"F{k}")) for k in range(1, n + 1)}
     S1.files = chain(LIMIT)
     o, opened = S1.run(S1.text("R0", "INCLUDE f1.map", "R1"), "/r/main.map")
     ctx.check(o.kind == "return" and len(opened) == LIMIT, "I1", f"{LIMIT} levels of nesting are expanded", loc(fn), f"{len(opened)} files opened", f"a chain of {LIMIT} nested includes gives {o.exc or o.value!r} after opening {len(opened)} files")
@@ -214,13 +243,13 @@ def run(ctx: Ctx) -> None:
     o, opened = S1.run(S1.text("R0", "INCLUDE f1.map", "R1"), "/r/main.map")
     ctx.check(o.kind == "raise" and o.exc == "ValueError" and len(opened) == LIMIT, "I1", f"level {LIMIT + 1} is refused with ValueError before its file is read", loc(fn), "", f"a chain of {LIMIT + 1} nested includes gives {o.exc or 'a result'} after opening {len(opened)} files (expected ValueError after {LIMIT})")
     # the same bound when the root text has no file name (loads / a nameless stream)
-    chain_cwd = lambda n: {f"ABS(JOIN(DIR(/cwd/),f{k}.map))": (S1.text(f"F{k}a", f"INCLUDE f{k + 1}.map", f"F{k}b") if k < n else S1.text(f"F{k}")) for k in range(1, n + 1)}
+    chain_cwd = lambda n: {vpath(f"f{k}.map", None): (S1.text(f"F{k}a", f"INCLUDE f{k + 1}.map", f"F{k}b") if k < n else S1.text(f"F{k}")) for k in range(1, n + 1)}
     S1.files = chain_cwd(LIMIT + 1)
     o, opened = S1.run(S1.text("R0", "INCLUDE f1.map", "R1"), None)
     ctx.check(o.kind == "raise" and o.exc == "ValueError" and len(opened) == LIMIT, "I1", f"level {LIMIT + 1} is refused also when the root has no file name", loc(fn), "", f"without a root file name a chain of {LIMIT + 1} nested includes gives {o.exc or 'a result'} after opening {len(opened)} files (expected ValueError after {LIMIT}): open() and loads() disagree on the same tree")
     # a file reached at two different depths is checked at each: via X directly its chain fits, via Y it does not
-    S1.files = {f"ABS(JOIN(DIR(/r/main.map),x{k}.map))": (S1.text(f"X{k}", f"INCLUDE x{k + 1}.map") if k < LIMIT - 1 else S1.text(f"X{k}")) for k in range(0, LIMIT)}
-    S1.files["ABS(JOIN(DIR(/r/main.map),y.map))"] = S1.text("Y", "INCLUDE x0.map")
+    S1.files = {vpath(f"x{k}.map", "/r/main.map"): (S1.text(f"X{k}", f"INCLUDE x{k + 1}.map") if k < LIMIT - 1 else S1.text(f"X{k}")) for k in range(0, LIMIT)}
+    S1.files[vpath("y.map", "/r/main.map")] = S1.text("Y", "INCLUDE x0.map")
     o, opened = S1.run(S1.text("INCLUDE x0.map", "INCLUDE y.map"), "/r/main.map")
     ctx.check(o.kind == "raise" and o.exc == "ValueError", "I1", "a file reached again one level deeper is bounded by its own depth", loc(fn), "", f"x0 (whose chain just fits below the root) included again through y gives {o.exc or 'a result'}: text expanded at a shallow depth is reused deeper without counting its own includes")
     for cs in facts.callers_of("parser.Parser.load_includes"):
@@ -235,7 +264,7 @@ def run(ctx: Ctx) -> None:
     # builders, the lines of every file are opaque (any text that is not an INCLUDE line)
     S_ = _Scenarios(e)
     root = "/r/main.map"
-    rel = lambda name, base=root: f"ABS(JOIN(DIR({base}),{name}))"
+    rel = lambda name, base=root: vpath(name, base)
     # (1) order and splice at depth 1, both quote styles, indentation, trailing comment
     S_.files = {rel("a.map"): S_.text("A0", "A1"), rel("b.map"): S_.text("B0")}
     o, opened = S_.run(S_.text("L0", 'INCLUDE "a.map"', "L1", "  include 'b.map' # c", "L2"), root)
@@ -252,9 +281,16 @@ def run(ctx: Ctx) -> None:
     o, opened = S_.run(S_.text("L0", "INCLUDE", "L1"), root)
     ctx.check(o.kind == "return" and o.value == S_.text("L0", "INCLUDE", "L1") and not opened, "I2", "an INCLUDE line without a file name is left as it is", loc(fn), "", f"expansion of L0 / INCLUDE / L1 gives {(o.value if o.kind == 'return' else o.exc)!r} and opens {opened}: the parse error the parser would give is replaced by another failure")
     # (3) no file name given: the working directory
-    S_.files = {"ABS(JOIN(DIR(/cwd/),a.map))": S_.text("A0")}
+    S_.files = {vpath("a.map", None): S_.text("A0")}
     o, opened = S_.run(S_.text("INCLUDE a.map"), None)
-    ctx.check(o.kind == "return" and opened == ["ABS(JOIN(DIR(/cwd/),a.map))"], "I2", "without a file name relative includes resolve against the working directory", loc(fn), str(opened), f"with fn=None the files opened are {opened} ({o.exc or ''})")
+    ctx.check(o.kind == "return" and opened == [vpath("a.map", None)], "I2", "without a file name relative includes resolve against the working directory", loc(fn), str(opened), f"with fn=None the files opened are {opened} ({o.exc or ''})")
+    # (4) the root named without a directory part (opened from its own folder): its directory is the working
+    # directory at every depth - a name inside a file of a sub-folder is still relative to the root
+    for rootname in ("main.map", "./main.map", "maps/main.map"):
+        S_.files = {vpath("sub/a.map", rootname): S_.text("A0", 'INCLUDE "b.map"', "A1"), vpath("b.map", rootname): S_.text("B0", 'INCLUDE "sub/deep/c.map"'), vpath("sub/deep/c.map", rootname): S_.text("C0", "INCLUDE d.map"), vpath("d.map", rootname): S_.text("D0")}
+        o, opened = S_.run(S_.text('INCLUDE "sub/a.map"', "L1"), rootname)
+        wanted = [vpath("sub/a.map", rootname), vpath("b.map", rootname), vpath("sub/deep/c.map", rootname), vpath("d.map", rootname)]
+        ctx.check(o.kind == "return" and opened == wanted, "I2", f"root given as {rootname!r}: nested relative names resolve against the root's directory at every depth", loc(fn), str(opened), f"with the root named {rootname!r} (working directory /cwd) the nested includes are looked for in {opened} ({o.exc or ''}); expected {wanted}")
     pf = repo.func("parser.Parser.parse_file")
     for q, argname in (("parser.Parser.parse_file", "fn"), ("parser.Parser.load", "fn")):
         f2 = repo.func(q)
